@@ -57,6 +57,7 @@ static inline void ABTI_ythread_resume_and_push(ABTI_local *p_local,
 
     /* Add the ULT to its associated pool */
     ABTI_pool_add_thread(&p_ythread->thread, ABT_POOL_CONTEXT_OP_THREAD_RESUME);
+    ABTI_VERIF_POINT(ABTI_VERIF_P_RESUME_AFTER_PUSH);
 
     /* Decrease the number of blocked threads */
     ABTI_pool_dec_num_blocked(p_pool);
@@ -414,14 +415,17 @@ ABTI_ythread_atomic_get_joiner(ABTI_ythread *p_ythread)
     ABTD_ythread_context *p_link =
         ABTD_atomic_acquire_load_ythread_context_ptr(&p_ctx->p_link);
     if (!p_link) {
+        ABTI_VERIF_POINT(ABTI_VERIF_P_GET_JOINER_BEFORE_REQ);
         uint32_t req = ABTD_atomic_fetch_or_uint32(&p_ythread->thread.request,
                                                    ABTI_THREAD_REQ_JOIN);
         if (!(req & ABTI_THREAD_REQ_JOIN)) {
             /* This case means there is no join request. */
+            ABTI_VERIF_COV(ABTI_VERIF_C_GET_JOINER_NONE);
             return NULL;
         } else {
             /* This case means a join request is issued and the joiner is
              * setting p_link.  Wait for it. */
+            ABTI_VERIF_COV(ABTI_VERIF_C_GET_JOINER_WAITED);
             do {
                 p_link = ABTD_atomic_acquire_load_ythread_context_ptr(
                     &p_ctx->p_link);
@@ -430,6 +434,7 @@ ABTI_ythread_atomic_get_joiner(ABTI_ythread *p_ythread)
         }
     } else {
         /* There is a join request. */
+        ABTI_VERIF_COV(ABTI_VERIF_C_GET_JOINER_READY);
         return ABTI_ythread_context_get_ythread(p_link);
     }
 }
@@ -470,6 +475,7 @@ ABTI_ythread_exit(ABTI_xstream *p_local_xstream, ABTI_ythread *p_self)
              * futex (see thread_join_futexwait()). */
             ABTD_futex_single *p_futex =
                 (ABTD_futex_single *)p_joiner->thread.p_arg;
+            ABTI_VERIF_COV(ABTI_VERIF_C_EXIT_FUTEX_JOINER);
             ABTD_futex_resume(p_futex);
         } else
 #endif
@@ -479,6 +485,7 @@ ABTI_ythread_exit(ABTI_xstream *p_local_xstream, ABTI_ythread *p_self)
             /* Only when the current ULT is on the same ES as p_joiner's, we can
              * jump to the joiner ULT.  Note that a parent ULT cannot be a
              * joiner. */
+            ABTI_VERIF_COV(ABTI_VERIF_C_EXIT_JUMP_TO_JOINER);
             ABTI_pool_dec_num_blocked(p_joiner->thread.p_pool);
             ABTI_event_ythread_resume(ABTI_xstream_get_local(p_local_xstream),
                                       p_joiner, &p_self->thread);
@@ -495,6 +502,7 @@ ABTI_ythread_exit(ABTI_xstream *p_local_xstream, ABTI_ythread *p_self)
              * here so that p_joiner's scheduler can resume it.  Note that the
              * main scheduler needs to jump back to the root scheduler, so the
              * main scheduler needs to take this path. */
+            ABTI_VERIF_COV(ABTI_VERIF_C_EXIT_PUSH_JOINER);
             ABTI_ythread_resume_and_push(ABTI_xstream_get_local(
                                              p_local_xstream),
                                          p_joiner);
@@ -693,8 +701,10 @@ static inline void ABTI_ythread_schedule(ABTI_global *p_global,
         }
     } else if (request_op == ABTI_THREAD_HANDLE_REQUEST_CANCELLED) {
         /* If p_thread is cancelled, there's nothing to do. */
+        ABTI_VERIF_COV(ABTI_VERIF_C_SCHEDULE_CANCELLED);
     } else if (request_op == ABTI_THREAD_HANDLE_REQUEST_MIGRATED) {
         /* If p_thread is migrated, let's push p_thread back to its pool. */
+        ABTI_VERIF_COV(ABTI_VERIF_C_SCHEDULE_MIGRATED);
         ABTI_pool_add_thread(p_thread, ABT_POOL_CONTEXT_OP_THREAD_MIGRATE);
     }
 }
